@@ -220,7 +220,7 @@ def run(prog, tier, res):
         if vals == spec["previous_marker_defs"]:
             upd = True
     check(res, R5, upd, MAIN, "previous-marker", "previous_marker is not initialised to None and set to the piece's marker after each piece", b.where())
-    res.sample({"chronobox_time": spec["chronobox_time"][1] if len(spec["chronobox_time"]) > 1 else None})
+    res.sample({"chronobox_time": spec["chronobox_time"]["rows"]})
     res.undecided = ["equality of chronobox_time with the true edge time for all hardware streams / cut patterns / faults (history-quantified arithmetic)"]
 
 
